@@ -30,7 +30,8 @@ EXPLANATION = (
     "fintInitForeignGlobValue. T4: for every builtin, the normalised expression tree of its fintEvalBCall case equals the "
     "tree of the C the generator emits for it (term built by gc0Builtin/gc0FCall/gc0Cop/gc0SIntMod, computed from their source "
     "for that tag, names resolved through foam_c.h by clang; expression form and statement-macro form); trees and rewrite list "
-    "are those of C04. Not decided: equality of outputs on programs.")
+    "are those of C04. T5: in genc.c and ccode.c the value of every call that returns a CCode is used (assigned, passed on, "
+    "returned or tested) or explicitly cast to void; one frozen exception (frozen/c03_effect_calls.json). Not decided: equality of outputs on programs.")
 
 FROZEN = os.path.join(os.path.dirname(__file__), "frozen")
 INTERP_CHAIN = ["fintStmt", "fintEval_", "fintGetReference"]
@@ -204,6 +205,31 @@ def t4(rep, tier):
     rep.floor("builtins compared between interpreter and generated C", n, 200)
 
 
+def t5(rep):
+    """No C fragment built by the generator is dropped."""
+    from . import dropped
+    import json
+    allowed = json.load(open(os.path.join(FROZEN, "c03_effect_calls.json")))
+    total = 0
+    for unit in ("genc.c", "ccode.c"):
+        f = common.extract(unit, all_trees=True)
+        sites, n = dropped.dropped_results(f, unit, ("CCode", "CCodeList"))
+        total += n
+        bad = 0
+        for s_ in sites:
+            k = "%s:%s:%s" % (unit, s_["func"], s_["callee"])
+            if k in allowed:
+                rep.note("T5 frozen (%s): %s:%d" % (allowed[k], unit, s_["line"]))
+                continue
+            bad += 1
+            rep.violation("T5", "dropped-fragment:" + k, "%s:%d (%s)" % (unit, s_["line"], s_["func"]),
+                          "the %s returned by %s(...) is discarded: the generator builds a piece of C and then emits the "
+                          "program without it" % (s_["type"], s_["callee"]))
+        if not bad:
+            rep.ok("T5", "no-dropped-fragment:" + unit, sample={"calls returning CCode examined": n})
+    rep.floor("calls returning a C fragment", total, 1500)
+
+
 def run(tier, only=None):
     rep = common.Report("C03", tier, EXPLANATION)
     f_fint = common.extract("fint.c", trees=INTERP_CHAIN + ["fintInitForeignGlobValue"])
@@ -213,4 +239,5 @@ def run(tier, only=None):
     t2(rep, f_foam, f_genc)
     t3(rep, f_fint)
     t4(rep, tier)
+    t5(rep)
     return rep
